@@ -5,6 +5,7 @@
 mod interpose;
 mod util;
 mod world;
+mod bytesapi;
 mod timed;
 mod chain;
 #[cfg(feature = "async")]
@@ -40,6 +41,7 @@ fn main() {
     }
     match args[1].as_str() {
         "world" => world::run(&args[2..]),
+        "bytesapi" => bytesapi::run(&args[2..]),
         "timed" => timed::run(&args[2..]),
         "chain" => chain::run(&args[2..]),
         #[cfg(not(feature = "force-inprocess"))]
